@@ -384,6 +384,40 @@ class CoroIndex:
             return None
         return None
 
+    def awaited_local(self, did, _seen=None):
+        """local coroutines awaited (transitively, also through select! branches) by coroutine `did`"""
+        seen = _seen if _seen is not None else set()
+        if did in seen or did not in self.coros:
+            return seen
+        seen.add(did)
+        c = self.coros[did]
+
+        def cors(ty):
+            k = ty.get("k")
+            if k == "cor":
+                yield ty["did"]
+            elif k == "adt":
+                for a in ty.get("args", []):
+                    yield from cors(a)
+            elif k == "tuple":
+                for a in ty["ts"]:
+                    yield from cors(a)
+            elif k in ("ref", "ptr"):
+                yield from cors(ty["t"])
+            elif k == "closure":
+                for a in ty.get("upvars", []):
+                    yield from cors(a)
+        for s in c.susp:
+            tys = []
+            if s.awaitee:
+                tys.append(s.awaitee["ty_j"])
+            if s.is_select:
+                tys += [f["ty_j"] for f in s.fields if f.get("name") == "futures"]
+            for t in tys:
+                for d in cors(t):
+                    self.awaited_local(d, seen)
+        return seen
+
     # ---- select / spawn sites
     def select_sites(self):
         out = []
